@@ -194,6 +194,61 @@ def _undecodable(code, curt, vid, n):
     return ser + bytes(tx.sign(vid, ser))
 
 
+def _rehead(g, code, curt, vid, zeroth, new_code=None, neck=None, mid=None):
+    """gram g with head fields replaced (code text, neck value, 24 char mid); a signed gram is authentically re-signed
+    by its sender, so that pick accepts the head as it stands"""
+    from base64 import urlsafe_b64decode
+    from hio.help import helping
+    parts, az = _parts(code, curt, zeroth)
+    hz = parts[-1][2]
+    body = g[hz:len(g) - az]
+    c_, n_, m_ = g[parts[0][1]:parts[0][2]], g[parts[1][1]:parts[1][2]], g[parts[2][1]:parts[2][2]]
+    rest = g[parts[2][2]:hz]
+    if new_code is not None:
+        c_ = urlsafe_b64decode(new_code) if curt else new_code.encode()
+    if neck is not None:
+        n_ = neck.to_bytes(3, "big") if curt else helping.intToB64b(neck, 4)
+    if mid is not None:
+        m_ = urlsafe_b64decode(mid) if curt else mid.encode()
+    ser = c_ + n_ + m_ + rest + body
+    if not az:
+        return ser
+    keep, _ = mc.keep_and_vids()
+    tx = mc.memoer_class()(code="bAAC", curt=curt, keep=keep, vid=vid)
+    return ser + bytes(tx.sign(vid, ser))
+
+
+PAIR = {"bAAA": "bAAB", "bAAC": "bAAD", "bAAE": "bAAF", "bAAG": "bAAH"}
+
+
+def _structured(code, curt, vid, n, rng=None):
+    """structured head mutations of the grams of a valid 3+ gram memo: gram number / count replaced by boundary values
+    (0, 1, count-1, count, max) under zeroth and non-zeroth codes, mid of the in-flight memo or of an unknown one; each
+    mutant arrives before, between or after the valid grams.  -> list of (label, datagram list)"""
+    g = _grams(MEMOS[1] if code not in mc.SIGNED or curt else MEMOS[2], code, curt, vid, n, 5)
+    cnt = len(g)
+    other = mc.mid_of(n + 77777)
+    muts = []
+    for neck in (0, 1, cnt - 1, cnt, 16777215):
+        muts.append((f"nonzeroth code gn={neck}", _rehead(g[1], code, curt, vid, False, neck=neck)))
+        muts.append((f"nonzeroth code gn={neck} unknown mid", _rehead(g[1], code, curt, vid, False, neck=neck, mid=other)))
+        muts.append((f"zeroth code count={neck}", _rehead(g[0], code, curt, vid, True, neck=neck)))
+        muts.append((f"zeroth code count={neck} unknown mid", _rehead(g[0], code, curt, vid, True, neck=neck, mid=other)))
+    if code not in mc.SIGNED:
+        # code swapped between zeroth and non-zeroth (same part sizes when unsigned)
+        muts.append(("zeroth gram under nonzeroth code", _rehead(g[0], code, curt, vid, True, new_code=PAIR[code])))
+        muts.append(("nonzeroth gram under zeroth code", _rehead(g[1], code, curt, vid, False, new_code=code)))
+        muts.append(("nonzeroth gram under zeroth code count 0", _rehead(g[1], code, curt, vid, False, new_code=code, neck=0)))
+    out = []
+    for lab, m in (muts if rng is None else rng.sample(muts, 2)):
+        places = (0, 1, cnt) if rng is None else (rng.choice([0, 0, 1, cnt]),)
+        for pos in places:
+            dg = [(x, 1) for x in g]
+            dg.insert(pos, (m, 1))
+            out.append((f"{lab} @{pos}", dg))
+    return out, MEMOS[1] if code not in mc.SIGNED or curt else MEMOS[2]
+
+
 def _case(authic, dgrams, svc="all", kind="valid", keep="full"):
     """dgrams: list of (bytes, src).  svc: 'all' after every datagram | 'end' | 'once' | 'split'."""
     ops = []
@@ -288,6 +343,19 @@ def directed():
                 c.update({"src": src, "expect": [MEMOS[1].encode().hex()], "clean": True})
                 c["ops"] += [["all"], ["all"]]
                 out.append(c)
+    # structured head mutations (boundary gram numbers / counts under zeroth and non-zeroth codes, in-flight and unknown
+    # mids), before / between / after the valid grams; a later valid memo must still be delivered
+    for code, curt, vid in cfgs:
+        n += 1
+        sm, text = _structured(code, curt, vid, n)
+        later = _grams(MEMOS[0] * 5, code, curt, vid, n + 900, 40)
+        for lab, dg in sm:
+            c = _case(False, dg + [(x, 2) for x in later], "all" if "@0" in lab else "end", "mut:head " + lab)
+            c["expect"] = [(MEMOS[0] * 5).encode().hex()]
+            c["ops"] += [["all"]]
+            out.append(c)
+            if code in mc.SIGNED and "@1" in lab:
+                out.append(dict(c, authic=True))
     # gram numbers beyond the count while a middle gram is missing and the last one is present: must stay incomplete
     # without raising on any later pass, and complete once the missing gram arrives
     for code, curt, vid in cfgs:
@@ -370,6 +438,10 @@ def generate(rng, tier):
         out.append(_case(authic, dg, svc, kind, keep=rcv))
         if rng.random() < 0.4:
             out[-1]["rxvid"] = rng.randrange(3)        # the receiver has a signer id of its own
+        if rng.random() < 0.08 and (snd, rcv) == ("full", "full"):
+            sm, _t = _structured(code, curt, vid, 9000 + i, rng)
+            lab, dg2 = sm[0]
+            out[-1] = _case(authic, dg2, rng.choice(["all", "end", "once", "split"]), "mut:head " + lab)
         r2 = rng.random()
         if r2 < 0.5:
             out[-1]["src"] = "tuple" if r2 < 0.3 else "udp"
